@@ -925,6 +925,54 @@ def _run_job(job, kern, jd, res):
         res.canary = 'skipped'
 
 
+class MemBudget:
+    """cross-process admission control: the checks of several properties may run at the same time on one machine, and a handful of
+    whole-tower jobs (C11, C15, C13/C14 at 32 bits) peak at 7-25 GB each.  Every job reserves an estimate (a quarter of its address-space
+    limit) in a lock-protected table under /verif/.work before it starts and releases it when done; reservations of dead processes
+    are dropped.  A job is always admitted when nothing else is reserved, so there is no deadlock; waiting time is not solver time."""
+
+    def __init__(self):
+        self.path = os.path.join(VERIF, '.work', '.membudget.json')
+        try:
+            total_kb = int(re.search(r'MemTotal:\s+(\d+)', open('/proc/meminfo').read()).group(1))
+        except Exception:
+            total_kb = 32 << 20
+        self.budget = float(os.environ.get('VP_MEM_BUDGET_GB', 0)) or 0.7 * total_kb / (1 << 20)
+
+    def _update(self, fn):
+        import fcntl
+        os.makedirs(os.path.dirname(self.path), exist_ok=True)
+        with open(self.path, 'a+') as f:
+            fcntl.flock(f, fcntl.LOCK_EX)
+            f.seek(0)
+            try:
+                tab = json.loads(f.read() or '{}')
+            except ValueError:
+                tab = {}
+            tab = {k: v for k, v in tab.items() if os.path.exists('/proc/' + k.split(':')[0])}
+            ok = fn(tab)
+            f.seek(0)
+            f.truncate()
+            f.write(json.dumps(tab))
+            return ok
+
+    def acquire(self, key, gb):
+        def attempt(tab):
+            used = sum(tab.values())
+            if used == 0 or used + gb <= self.budget:
+                tab[key] = gb
+                return True
+            return False
+        while not self._update(attempt):
+            time.sleep(2 + (hash(key) % 100) / 50.0)
+
+    def release(self, key):
+        self._update(lambda tab: tab.pop(key, None) is None or True)
+
+
+MEM = MemBudget()
+
+
 def run_jobs(jobs, kernels, wd, workers=None, progress=None):
     workers = workers or int(os.environ.get('VP_WORKERS', '14'))
     results = []
@@ -933,7 +981,21 @@ def run_jobs(jobs, kernels, wd, workers=None, progress=None):
         return len(j.solvers)
     with ThreadPoolExecutor(max_workers=workers) as ex:
         from concurrent.futures import as_completed
-        futs = [ex.submit(run_job, j, kernels[j.kernel], wd) for j in jobs]
+        def admitted(j):
+            key = '%d:%s' % (os.getpid(), j.name)
+            try:
+                MEM.acquire(key, j.mem_gb / 4.0)
+            except OSError:
+                key = None          # admission control is best effort (read-only / full disk): run anyway
+            try:
+                return run_job(j, kernels[j.kernel], wd)
+            finally:
+                if key:
+                    try:
+                        MEM.release(key)
+                    except OSError:
+                        pass
+        futs = [ex.submit(admitted, j) for j in jobs]
         for f in as_completed(futs):
             if progress:
                 progress(f.result())
